@@ -36,13 +36,34 @@ CONSTANTS MaxLines,   \* documents of 0..MaxLines lines
 At(l, i) == IF i >= 1 /\ i <= Len(l) THEN l[i] ELSE "$"       \* "$" = end of line
 RECURSIVE Run(_, _, _)
 Run(l, i, c) == IF At(l, i) = c THEN 1 + Run(l, i + 1, c) ELSE 0
-Ind(l, i) == Run(l, i, " ")
+\* white space.  A raw line may contain tabs; Expand turns it into one cell per COLUMN: a tab at
+\* column c becomes the cell "\t" followed by 3 - (c % 4) cells "\t+" (2.2: tabs are not expanded,
+\* but where white space helps to define block structure they behave as if replaced by spaces with a
+\* tab stop of 4).  Everything below works on cells; Unexpand gives back characters: a tab whose head
+\* cell survives is a tab, left-over "\t+" cells of a partially consumed tab are spaces.
+Sp == {" ", "\t", "\t+"}
+RECURSIVE SpRun(_, _)
+SpRun(l, i) == IF At(l, i) \in Sp THEN 1 + SpRun(l, i + 1) ELSE 0
+Ind(l, i) == SpRun(l, i)
+RECURSIVE ExpandFrom(_, _, _)
+ExpandFrom(raw, i, col) ==
+  IF i > Len(raw) THEN <<>>
+  ELSE IF raw[i] = "\t" THEN LET w == 4 - (col % 4) IN <<"\t">> \o [k \in 1..(w - 1) |-> "\t+"] \o ExpandFrom(raw, i + 1, col + w)
+  ELSE <<raw[i]>> \o ExpandFrom(raw, i + 1, col + 1)
+Expand(raw) == ExpandFrom(raw, 1, 0)
+RECURSIVE UnexpandFrom(_, _, _)
+UnexpandFrom(l, i, afterHead) ==
+  IF i > Len(l) THEN <<>>
+  ELSE IF l[i] = "\t+" THEN (IF afterHead THEN <<>> ELSE <<" ">>) \o UnexpandFrom(l, i + 1, afterHead)
+  ELSE <<l[i]>> \o UnexpandFrom(l, i + 1, l[i] = "\t")
+Unexpand(l) == UnexpandFrom(l, 1, FALSE)
+HasTab(ls) == \E i \in 1..Len(ls) : \E k \in 1..Len(ls[i]) : ls[i][k] = "\t"
 Blank(l, i) == i + Ind(l, i) > Len(l)
 Rest(l, i) == IF i > Len(l) THEN <<>> ELSE SubSeq(l, i, Len(l))
 Min(a, b) == IF a < b THEN a ELSE b
 Max(a, b) == IF a > b THEN a ELSE b
 RECURSIVE RTrim(_)
-RTrim(l) == IF l # <<>> /\ l[Len(l)] = " " THEN RTrim(SubSeq(l, 1, Len(l) - 1)) ELSE l
+RTrim(l) == IF l # <<>> /\ l[Len(l)] \in Sp THEN RTrim(SubSeq(l, 1, Len(l) - 1)) ELSE l
 LTrim(l) == Rest(l, 1 + Ind(l, 1))
 Trim(l) == RTrim(LTrim(l))
 Digits == {"0", "1", "2", "3", "4", "5", "6", "7", "8", "9"}
@@ -55,7 +76,7 @@ Num(l, i, n) == IF n = 0 THEN 0 ELSE Num(l, i, n - 1) * 10 + DigVal(l[i + n - 1]
 
 ----------------------------------------------------------------------------
 \* blocks and frames share one record shape
-\*  k: doc quote list item para h hr fence icode | a, b: numbers | m: marker character
+\*  k: doc quote list item para h hr fence icode html | a, b: numbers | m: marker character
 \*  ch: finished children | text: lines of text / code | s, e: first and last source line
 Blk(k, n) == [k |-> k, ch |-> <<>>, text |-> <<>>, a |-> 0, b |-> 0, m |-> "", info |-> <<>>, s |-> n, e |-> n]
 Containers == {"doc", "quote", "list", "item"}
@@ -88,7 +109,7 @@ Match(st, l, i, pos) ==
            j == pos + ind
        IN
     CASE f.k = "quote" ->
-           IF ind <= 3 /\ At(l, j) = ">" THEN Match(st, l, i + 1, IF At(l, j + 1) = " " THEN j + 2 ELSE j + 1)
+           IF ind <= 3 /\ At(l, j) = ">" THEN Match(st, l, i + 1, IF At(l, j + 1) \in Sp THEN j + 2 ELSE j + 1)
            ELSE Res(i - 1, pos, FALSE)
       [] f.k = "list" -> Match(st, l, i + 1, pos)
       [] f.k = "item" ->
@@ -101,6 +122,7 @@ Match(st, l, i, pos) ==
            LET r == Run(l, j, f.m) IN
            IF ind <= 3 /\ r >= f.a /\ Blank(l, j + r) THEN Res(i, pos, TRUE)
            ELSE Res(i, pos + Min(ind, f.b), FALSE)
+      [] f.k = "html" -> IF f.a >= 6 /\ Blank(l, pos) THEN Res(i - 1, pos, FALSE) ELSE Res(i, pos, FALSE)   \* 4.6: types 6, 7 end at a blank line
       [] f.k = "icode" ->
            IF ind >= 4 THEN Res(i, pos + 4, FALSE)
            ELSE IF Blank(l, pos) THEN Res(i, pos + ind, FALSE)
@@ -109,7 +131,7 @@ Match(st, l, i, pos) ==
 ----------------------------------------------------------------------------
 \* step 2: block starts
 IsHr(l, j) == /\ At(l, j) \in {"-", "*", "_"}
-              /\ \A i \in j..Len(l) : l[i] \in {l[j], " "}
+              /\ \A i \in j..Len(l) : l[i] \in {l[j]} \cup Sp
               /\ Cardinality({i \in j..Len(l) : l[i] = l[j]}) >= 3
 IsSetextLine(l, j) == /\ At(l, j) \in {"=", "-"}
                       /\ Blank(l, j + Run(l, j, l[j]))
@@ -121,10 +143,36 @@ AtxContent(t0) == LET t == Trim(t0)
                       k == TrailHash(t)
                   IN IF k = 0 THEN t
                      ELSE IF k = Len(t) THEN <<>>
-                     ELSE IF t[Len(t) - k] = " " THEN RTrim(SubSeq(t, 1, Len(t) - k)) ELSE t
+                     ELSE IF t[Len(t) - k] \in Sp THEN RTrim(SubSeq(t, 1, Len(t) - k)) ELSE t
 FirstWord(t) == LET RECURSIVE W(_)
-                    W(i) == IF At(t, i) \in {" ", "$"} THEN 0 ELSE 1 + W(i + 1)
+                    W(i) == IF At(t, i) \in Sp \cup {"$"} THEN 0 ELSE 1 + W(i + 1)
                 IN SubSeq(t, 1, W(1))
+
+\* 4.6 HTML blocks.  Tag names are single line elements ("div", "pre", "em"); the start condition
+\* number of the line that begins at j, 0 if none
+Type1Names == {"pre", "script", "style", "textarea"}
+BlockNames == {"div", "p", "table", "ul", "h1", "blockquote"}
+OtherNames == {"em", "span", "x"}
+HtmlType(l, j) ==
+  IF At(l, j) # "<" THEN 0
+  ELSE IF At(l, j + 1) \in Type1Names /\ At(l, j + 2) \in Sp \cup {">", "$"} THEN 1
+  ELSE IF At(l, j + 1) = "!" /\ At(l, j + 2) = "-" /\ At(l, j + 3) = "-" THEN 2
+  ELSE IF At(l, j + 1) = "?" THEN 3
+  ELSE IF At(l, j + 1) = "!" /\ At(l, j + 2) \in {"X"} THEN 4
+  ELSE IF At(l, j + 1) \in BlockNames /\ (At(l, j + 2) \in Sp \cup {">", "$"} \/ (At(l, j + 2) = "/" /\ At(l, j + 3) = ">")) THEN 6
+  ELSE IF At(l, j + 1) = "/" /\ At(l, j + 2) \in BlockNames /\ At(l, j + 3) \in Sp \cup {">", "$"} THEN 6
+  ELSE IF At(l, j + 1) \in OtherNames \cup BlockNames /\ At(l, j + 2) = ">" /\ Blank(l, j + 3) THEN 7
+  ELSE IF At(l, j + 1) \in OtherNames /\ At(l, j + 2) = "/" /\ At(l, j + 3) = ">" /\ Blank(l, j + 4) THEN 7
+  ELSE IF At(l, j + 1) = "/" /\ At(l, j + 2) \in OtherNames /\ At(l, j + 3) = ">" /\ Blank(l, j + 4) THEN 7   \* not pre, script, style, textarea
+  ELSE 0
+\* end condition of types 1-5: the line contains the end marker anywhere from position i on
+HtmlEnds(l, i, t) ==
+  \E x \in i..Len(l) :
+     CASE t = 1 -> l[x] = "<" /\ At(l, x + 1) = "/" /\ At(l, x + 2) \in Type1Names /\ At(l, x + 3) = ">"
+       [] t = 2 -> l[x] = "-" /\ At(l, x + 1) = "-" /\ At(l, x + 2) = ">"
+       [] t = 3 -> l[x] = "?" /\ At(l, x + 1) = ">"
+       [] t = 4 -> l[x] = ">"
+       [] OTHER -> FALSE
 
 \* c = [st, cont, pos, started, done]: cont = index of the last matched / newest container frame;
 \* frames above cont are unmatched and still open until a block start closes them.
@@ -138,6 +186,7 @@ Starts(c, l, n) ==
       closed == CloseTo(c.st, c.cont)
       hashes == Run(l, j, "#")
       fl == Run(l, j, x)
+      ht == HtmlType(l, j)
       digs == DigRun(l, j)
       isBullet == x \in {"-", "+", "*"}
       isOrd == digs >= 1 /\ digs <= 9 /\ At(l, j + digs) \in {".", ")"}
@@ -154,21 +203,25 @@ Starts(c, l, n) ==
        ELSE c
   ELSE IF x = ">" THEN                                       \* 5.1
        LET st2 == Push(closed, Blk("quote", n)) IN
-       Starts([c EXCEPT !.st = st2, !.cont = Len(st2), !.pos = IF At(l, j + 1) = " " THEN j + 2 ELSE j + 1, !.started = TRUE], l, n)
-  ELSE IF x = "#" /\ hashes <= 6 /\ At(l, j + hashes) \in {" ", "$"} THEN   \* 4.2
+       Starts([c EXCEPT !.st = st2, !.cont = Len(st2), !.pos = IF At(l, j + 1) \in Sp THEN j + 2 ELSE j + 1, !.started = TRUE], l, n)
+  ELSE IF x = "#" /\ hashes <= 6 /\ At(l, j + hashes) \in Sp \cup {"$"} THEN   \* 4.2
        [c EXCEPT !.st = Pop(Push(closed, [Blk("h", n) EXCEPT !.a = hashes, !.text = <<AtxContent(Rest(l, j + hashes))>>])), !.done = TRUE]
   ELSE IF x \in {"`", "~"} /\ fl >= 3 /\ (x = "~" \/ NoBacktick(l, j + fl)) THEN   \* 4.5
        [c EXCEPT !.st = Push(closed, [Blk("fence", n) EXCEPT !.a = fl, !.b = ind, !.m = x, !.info = Trim(Rest(l, j + fl))]), !.done = TRUE]
+  ELSE IF ht >= 1 /\ (ht <= 6 \/ (contK # "para" /\ ~(~c.started /\ c.cont < Len(c.st) /\ Top(c.st).k = "para"))) THEN   \* 4.6: type 7 cannot interrupt a paragraph
+       LET blk == [Blk("html", n) EXCEPT !.a = ht, !.text = <<Rest(l, pos)>>, !.b = IF ht <= 5 /\ HtmlEnds(l, j, ht) THEN 1 ELSE 0]
+           st2 == Push(closed, blk)
+       IN [c EXCEPT !.st = IF blk.b = 1 THEN Pop(st2) ELSE st2, !.done = TRUE]
   ELSE IF contK = "para" /\ IsSetextLine(l, j) THEN          \* 4.3: only a paragraph that continues (not a lazy one)
        [c EXCEPT !.st = Pop(SetTop(c.st, [Top(c.st) EXCEPT !.k = "h", !.a = IF x = "=" THEN 1 ELSE 2, !.e = n])), !.done = TRUE]
   ELSE IF IsHr(l, j) THEN                                    \* 4.1
        [c EXCEPT !.st = Pop(Push(closed, Blk("hr", n))), !.done = TRUE]
-  ELSE IF (isBullet \/ isOrd) /\ At(l, after) \in {" ", "$"}
+  ELSE IF (isBullet \/ isOrd) /\ At(l, after) \in Sp \cup {"$"}
           /\ (contK = "para" => (~emptyItem /\ (isBullet \/ startNo = 1)))   \* 5.2: interrupting a paragraph
        THEN
        LET wide == emptyItem \/ sp >= 5
            padding == IF wide THEN mlen + 1 ELSE mlen + sp
-           newpos == IF wide THEN (IF At(l, after) = " " THEN after + 1 ELSE after) ELSE after + sp
+           newpos == IF wide THEN (IF At(l, after) \in Sp THEN after + 1 ELSE after) ELSE after + sp
            item == [Blk("item", n) EXCEPT !.a = ind + padding]
            sameList == contK = "list" /\ c.st[c.cont].m = mtype
            st2 == IF sameList THEN Push(closed, item)
@@ -180,15 +233,19 @@ Starts(c, l, n) ==
 \* one line
 MarkQuotes(st, m, n) == [i \in 1..Len(st) |-> IF i <= m /\ st[i].k = "quote" THEN [st[i] EXCEPT !.e = n] ELSE st[i]]
 
-Feed(st0, l, n) ==
-  LET r == Match(st0, l, 2, 1)
+Feed(st0, raw, n) ==
+  LET l == Expand(raw)
+      r == Match(st0, l, 2, 1)
       st == MarkQuotes(st0, r.m, n)
       top == Top(st)
-      leafMatched == r.m = Len(st) /\ top.k \in {"fence", "icode"}
+      leafMatched == r.m = Len(st) /\ top.k \in {"fence", "icode", "html"}
   IN
   IF leafMatched THEN
        IF r.closeFence THEN Pop(SetTop(st, [top EXCEPT !.e = n]))
        ELSE IF top.k = "fence" THEN SetTop(st, [top EXCEPT !.text = Append(@, Rest(l, r.pos)), !.e = n])
+       ELSE IF top.k = "html" THEN
+            LET t2 == [top EXCEPT !.text = Append(@, Rest(l, r.pos)), !.e = n] IN
+            IF top.a <= 5 /\ HtmlEnds(l, r.pos, top.a) THEN Pop(SetTop(st, [t2 EXCEPT !.b = 1])) ELSE SetTop(st, t2)
        ELSE IF Blank(l, r.pos) THEN SetTop(st, [top EXCEPT !.text = Append(@, <<>>)])
        ELSE SetTop(st, [top EXCEPT !.text = Append(@, Rest(l, r.pos)), !.e = n])
   ELSE
@@ -215,11 +272,13 @@ Parse(ls) == Fin(CloseTo(FeedAll(Start, ls, 1), 1)[1])
 RECURSIVE Join(_)
 Join(ss) == IF ss = <<>> THEN "" ELSE Head(ss) \o Join(Tail(ss))
 Esc(c) == CASE c = ">" -> "&gt;" [] c = "<" -> "&lt;" [] c = "&" -> "&amp;" [] c = "\"" -> "&quot;" [] OTHER -> c
-EscLine(l) == Join([i \in 1..Len(l) |-> Esc(l[i])])
+EscLine(cells) == LET l == Unexpand(cells) IN Join([i \in 1..Len(l) |-> Esc(l[i])])
 RECURSIVE JoinLines(_)
 JoinLines(t) == IF t = <<>> THEN "" ELSE IF Len(t) = 1 THEN EscLine(t[1]) ELSE EscLine(t[1]) \o "\n" \o JoinLines(Tail(t))
 RECURSIVE CodeLines(_)
 CodeLines(t) == IF t = <<>> THEN "" ELSE EscLine(Head(t)) \o "\n" \o CodeLines(Tail(t))
+RECURSIVE RawLines(_)
+RawLines(t) == IF t = <<>> THEN "" ELSE IF Len(t) = 1 THEN Join(Unexpand(t[1])) ELSE Join(Unexpand(Head(t))) \o "\n" \o RawLines(Tail(t))
 DigStr(n) == CASE n = 0 -> "0" [] n = 1 -> "1" [] n = 2 -> "2" [] n = 3 -> "3" [] n = 4 -> "4" [] n = 5 -> "5"
                [] n = 6 -> "6" [] n = 7 -> "7" [] n = 8 -> "8" [] n = 9 -> "9"
 RECURSIVE NumStr(_)
@@ -230,31 +289,46 @@ Loose(b) == \E i \in 1..Len(b.ch) :
               \/ i < Len(b.ch) /\ b.ch[i].e + 1 < b.ch[i + 1].s
               \/ \E j \in 1..(Len(b.ch[i].ch) - 1) : b.ch[i].ch[j].e + 1 < b.ch[i].ch[j + 1].s
 
+\* The renderer of the reference implementation: a sequence of pieces, CR = "a line ending unless the
+\* output already ends in one" (cr() of commonmark.js); P(s) is text that does not end in a line ending.
+CR == [s |-> "", cr |-> TRUE]
+P(str) == [s |-> str, cr |-> FALSE]
+RECURSIVE Flat(_)
+Flat(ss) == IF ss = <<>> THEN <<>> ELSE Head(ss) \o Flat(Tail(ss))
 RECURSIVE Html(_, _)
 HtmlBlk(b, tight) ==
-  CASE b.k = "para" -> IF tight THEN JoinLines(b.text) ELSE "<p>" \o JoinLines(b.text) \o "</p>"
-    [] b.k = "h" -> "<h" \o DigStr(b.a) \o ">" \o JoinLines(b.text) \o "</h" \o DigStr(b.a) \o ">"
-    [] b.k = "hr" -> "<hr />"
-    [] b.k = "icode" -> "<pre><code>" \o CodeLines(b.text) \o "</code></pre>"
-    [] b.k = "fence" -> (IF b.info = <<>> THEN "<pre><code>" ELSE "<pre><code class=\"language-" \o EscLine(FirstWord(b.info)) \o "\">")
-                         \o CodeLines(b.text) \o "</code></pre>"
-    [] b.k = "quote" -> "<blockquote>" \o Html(b.ch, FALSE) \o "</blockquote>"
+  CASE b.k = "para" -> IF tight THEN <<P(JoinLines(b.text))>> ELSE <<CR, P("<p>" \o JoinLines(b.text) \o "</p>"), CR>>
+    [] b.k = "h" -> <<CR, P("<h" \o DigStr(b.a) \o ">" \o JoinLines(b.text) \o "</h" \o DigStr(b.a) \o ">"), CR>>
+    [] b.k = "hr" -> <<CR, P("<hr />"), CR>>
+    [] b.k = "icode" -> <<CR, P("<pre><code>" \o CodeLines(b.text) \o "</code></pre>"), CR>>
+    [] b.k = "fence" -> <<CR, P((IF b.info = <<>> THEN "<pre><code>" ELSE "<pre><code class=\"language-" \o EscLine(FirstWord(b.info)) \o "\">")
+                         \o CodeLines(b.text) \o "</code></pre>"), CR>>
+    [] b.k = "html" -> <<CR, P(RawLines(b.text)), CR>>
+    [] b.k = "quote" -> <<CR, P("<blockquote>"), CR>> \o Html(b.ch, FALSE) \o <<CR, P("</blockquote>"), CR>>
     [] b.k = "list" -> LET t == ~Loose(b)
                            open == IF b.b = 0 THEN "<ul>" ELSE IF b.a = 1 THEN "<ol>" ELSE "<ol start=\"" \o NumStr(b.a) \o "\">"
-                       IN open \o Join([i \in 1..Len(b.ch) |-> "<li>" \o Html(b.ch[i].ch, t) \o "</li>"])
-                               \o (IF b.b = 0 THEN "</ul>" ELSE "</ol>")
-Html(bs, tight) == Join([i \in 1..Len(bs) |-> HtmlBlk(bs[i], tight)])
-Render(d) == Html(d.ch, FALSE)
+                       IN <<CR, P(open), CR>>
+                          \o Flat([i \in 1..Len(b.ch) |-> <<P("<li>")>> \o Html(b.ch[i].ch, t) \o <<P("</li>"), CR>>])
+                          \o <<CR, P(IF b.b = 0 THEN "</ul>" ELSE "</ol>"), CR>>
+Html(bs, tight) == Flat([i \in 1..Len(bs) |-> HtmlBlk(bs[i], tight)])
+\* pieces -> text; nl = the text so far ends in a line ending (or is empty)
+RECURSIVE Out(_, _)
+Out(ps, nl) == IF ps = <<>> THEN ""
+               ELSE IF Head(ps).cr THEN (IF nl THEN "" ELSE "\n") \o Out(Tail(ps), TRUE)
+               ELSE Head(ps).s \o Out(Tail(ps), IF Head(ps).s = "" THEN nl ELSE FALSE)
+Render(d) == Out(Html(d.ch, FALSE), TRUE)
 
 \* paragraph or heading text that the inline rules would not leave literal: two backtick runs in one text
 RECURSIVE Ambig(_)
 Ambig(bs) == \E i \in 1..Len(bs) :
    \/ bs[i].k \in {"para", "h"} /\ Cardinality({x \in 1..Len(bs[i].text) : \E y \in 1..Len(bs[i].text[x]) : bs[i].text[x][y] = "`"}) >= 2
    \/ bs[i].k \in {"para", "h"} /\ \E x \in 1..Len(bs[i].text) : \E y \in 1..Len(bs[i].text[x]) : bs[i].text[x][y] \in {"*", "_", "<", "&", "[", "\\"}
+   \/ bs[i].k = "html" /\ bs[i].a <= 5 /\ bs[i].b = 0 /\ bs[i].text[Len(bs[i].text)] = <<>>   \* unclosed, ends in a blank line: the reference implementations disagree on looseness
    \/ bs[i].k \in Containers /\ Ambig(bs[i].ch)
 
 ----------------------------------------------------------------------------
 \* line alphabets: pieces are concatenated (prefix, prefix, body); no line ends in a space
+Tab == <<"\t">>
 S1 == <<" ">>
 S2 == <<" ", " ">>
 S3 == <<" ", " ", " ">>
@@ -282,7 +356,7 @@ BulWide == <<"-", " ", " ", " ", " ", " ", "a">>   \* marker + 5 spaces: item ho
 Bul2 == <<"-", " ", " ", " ">>                      \* marker + 3 spaces: wide content offset
 
 Cat(P1, P2, B) == {p1 \o p2 \o b : p1 \in P1, p2 \in P2, b \in B}
-NoTrail(L) == {l \in L : l = <<>> \/ l[Len(l)] # " "}
+NoTrail(L) == {l \in L : l = <<>> \/ l[Len(l)] \notin Sp}
 
 Alphabet ==
   CASE AlphaName = "tiny"  -> NoTrail(Cat({<<>>}, {<<>>, GtS, Bul, S2}, {<<>>, Wa, Dash3}))
@@ -293,6 +367,12 @@ Alphabet ==
     [] AlphaName = "quotes" -> NoTrail(Cat({<<>>, Gt, GtS}, {<<>>, Gt, GtS, Bul, S2, S4}, {<<>>, Wa, Dash3, Eq3, Fence, HashA}))
     [] AlphaName = "leaves" -> NoTrail(Cat({<<>>, GtS, Bul}, {<<>>, S1, S3, S4}, {<<>>, Wa, Wb, Dash3, Eq1, Eq3, Hash, HashA, Fence, Fence4, Tilde, FenceInfo,
                                              <<"#", "a">>, <<"#", " ", "a", " ", "#">>, <<"-", " ", "-", " ", "-">>, <<"-", "-">>, <<"*", "*", "*">>}))
+    [] AlphaName = "html"  -> NoTrail(Cat({<<>>}, {<<>>, GtS, Bul, S2, S4}, {<<>>, Wa, Dash3, <<"<", "div", ">">>, <<"<", "/", "div", ">">>, <<"<", "!", "-", "-">>, <<"-", "-", ">">>,
+                                             <<"<", "em", ">">>, <<"<", "pre", ">">>, <<"<", "/", "pre", ">">>, <<"<", "?">>, <<"?", ">">>, <<"<", "!", "-", "-", " ", "a", " ", "-", "-", ">">>,
+                                             <<"<", "div">>, <<"<", "/", "em", ">">>, <<"<", "div", ">", "a">>, <<"<", "em", ">", "a">>}))
+    [] AlphaName = "tabs"  -> NoTrail(Cat({<<>>, Gt, GtS, Bul, BulBare, Ord, S1, S2}, {<<>>, Tab, Tab \o Tab, S1 \o Tab, S2 \o Tab},
+                                          {<<>>, Wa, Bul \o Wa, BulBare \o Tab \o Wa, Dash3, Fence, HashA, <<"#">> \o Tab \o Wa, Gt \o Wa, Ord \o Wa, <<"1", ".">> \o Tab \o Wa, Tab \o Wa}))
+    [] AlphaName = "tabs2" -> NoTrail(Cat({<<>>, GtS, Bul, Bul \o Bul, S2}, {<<>>, Tab, S1 \o Tab, S3 \o Tab, Tab \o S1}, {<<>>, Wa, Bul \o Wa, BulBare \o Tab \o Wa, Fence, Tab \o Wa, Gt \o Tab \o Wa}))
     [] AlphaName = "wide"  -> NoTrail(Cat({<<>>, Gt, GtS, Bul, Ord, S2, S3, S4}, {<<>>, Gt, GtS, Bul, Plus, Ord, Ord2, S1, S2, S4},
                                           {<<>>, Wa, Dash3, Eq3, Hash, HashA, Fence, Tilde, FenceInfo, BulBare}))
                               \cup {BulWide, Bul2 \o Wa, OrdP \o Wa}
@@ -313,8 +393,24 @@ Next == /\ Len(doc) < MaxLines
 Spec == Init /\ [][Next]_vars
 
 \* every state is a document
+\* For cause analysis in the harness: the same document with every tab that directly follows a list
+\* marker, or that belongs to the white space directly before one, written as spaces (same columns).
+MarkerEnd == {"-", "+", "*", ".", ")"}
+MarkerStart == {"-", "+", "*"} \cup Digits
+RECURSIVE NextNonSp(_, _)
+NextNonSp(l, i) == IF At(l, i) \in Sp THEN NextNonSp(l, i + 1) ELSE At(l, i)
+RECURSIVE HeadOf(_, _)
+HeadOf(l, i) == IF l[i] = "\t+" THEN HeadOf(l, i - 1) ELSE i
+RECURSIVE PrevNonSp(_, _)
+PrevNonSp(l, i) == IF i >= 1 /\ l[i] \in Sp THEN PrevNonSp(l, i - 1) ELSE At(l, i)
+Respell(raw) == LET l == Expand(raw) IN
+  Unexpand([i \in 1..Len(l) |->
+     IF l[i] \in {"\t", "\t+"} /\ (PrevNonSp(l, i) \in MarkerEnd \/ NextNonSp(l, i) \in MarkerStart) THEN " " ELSE l[i]])
+SpDoc == [i \in 1..Len(doc) |-> Respell(doc[i])]
 EmitDoc == Emit => PrintT(ToJson([src |-> Src(doc), html |-> HtmlOf(st),
-                                  skip |-> Ambig(Fin(CloseTo(st, 1)[1]).ch)]))
+                                  skip |-> Ambig(Fin(CloseTo(st, 1)[1]).ch),
+                                  srcsp |-> IF HasTab(doc) /\ SpDoc # doc THEN Src(SpDoc) ELSE "",
+                                  htmlsp |-> IF HasTab(doc) /\ SpDoc # doc THEN Render(Parse(SpDoc)) ELSE ""]))
 
 ----------------------------------------------------------------------------
 \* structural invariants of the open-block stack
@@ -329,13 +425,13 @@ Incremental == FeedAll(Start, doc, 1) = st
 
 \* C08 at model level: prefixing every line with "> " wraps the same content in a block quote
 NonBlankDoc == \E i \in 1..Len(doc) : ~Blank(doc[i], 1)
-QuoteLaw == (Laws /\ NonBlankDoc) =>
-   Render(Parse([i \in 1..Len(doc) |-> GtS \o doc[i]])) = "<blockquote>" \o HtmlOf(st) \o "</blockquote>"
+QuoteLaw == (Laws /\ NonBlankDoc /\ ~HasTab(doc)) =>
+   Render(Parse([i \in 1..Len(doc) |-> GtS \o doc[i]])) = "<blockquote>\n" \o HtmlOf(st) \o "</blockquote>\n"
 
-\* C09 at model level: when every block is closed by a blank line (no open fenced code at the end),
+\* C09 at model level: when every block is closed by a blank line (no open fenced code block or HTML block of types 1-5 at the end),
 \* a following document renders independently
-EndsClosed(stack) == \A i \in 1..Len(stack) : stack[i].k # "fence"
+EndsClosed(stack) == \A i \in 1..Len(stack) : stack[i].k # "fence" /\ ~(stack[i].k = "html" /\ stack[i].a <= 5)
 ConcatLaw == (Laws /\ doc # <<>> /\ EndsClosed(st)) =>
    \A l \in {Wa, HashA, Dash3 \o Dash3} :
-      Render(Parse(doc \o <<<<>>, HashA, <<>>, l>>)) = HtmlOf(st) \o "<h1>a</h1>" \o Render(Parse(<<l>>))
+      Render(Parse(doc \o <<<<>>, HashA, <<>>, l>>)) = HtmlOf(st) \o "<h1>a</h1>\n" \o Render(Parse(<<l>>))
 =============================================================================
